@@ -20,6 +20,7 @@ MODEL_TARGETS = ['theories/Spec/Valid.vo', 'theories/Spec/ValidTD.vo', 'theories
 MODEL_NEEDS_IMPL = True
 SHARD = 24
 SIZES = {'quick': 420, 'thorough': 4200, 'search': 1800}
+_R4 = "; round-four features, each in about 1/3 of the problems and from its own forked random stream: 2-4 extra jobs with REPLACEMENT tasks (also mixed with pickups / services / shipments), REQUIRED breaks (exact time or offset interval, 1-2 per shift, on shifts without optional breaks and reloads; documents show them as break activities inside a stop or as stops without location), VICINITY CLUSTERING (plan.clustering with the vehicles' profile, visiting continue / return, serving original with parking 0-10, thresholds taken from the matrix, 3-5 extra single-task jobs at a pair of near locations; not together with breaks, reloads, errorCodes or general routing data)"
 RULE = ('cases: generated pragmatic problems (3-10 jobs: deliveries, pickups, services, shipments, multi jobs; 1-2 places / windows; '
         '1-3 vehicle types x 1-2 ids x 1-2 shifts, open and closed ends; capacity, skills, maxDistance / maxDuration / tourSize limits; '
         'additive features, each in about 1/3 of the problems and freely combined: job compatibility classes mixed with plain jobs, job '
@@ -29,16 +30,25 @@ RULE = ('cases: generated pragmatic problems (3-10 jobs: deliveries, pickups, se
         'maximize-value objective on), optional vehicle breaks (time window or offset interval, places with / without location, 1-2 per shift), '
         'general routing data for a quarter of the problems (1-2 profiles, integer scale, 2-3 timestamped matrices per profile); a fifth of '
         'the cases carry relations (any / sequence / strict, departure / arrival anchors, shiftIndex) derived from a solution of the same problem; '
-        'metric and non-metric integer matrices incl. the "cheap chain, expensive shortcut" shape) x 3 configurations each '
+        'metric and non-metric integer matrices incl. the "cheap chain, expensive shortcut" shape' + _R4 + ') x 3 configurations each '
         '(max_generations 0-20, Parallelism none/(1,1)/(2,2), outer threads 1-2, quota firing after 0-89 polls or never). '
         'non-trivial = distinct (problem, document) whose document has a tour with >= 2 jobs or a binding constraint (an unassigned job).')
 TRUSTED = ['rendering of the JSON documents into the reduced Coq types and the rebuilding of Core activities from a reported tour '
            '(tools/props/e2e.py, Spec/Valid.v tour_acts / match_act): an activity is attributed to the job task place by location, duration and window',
            'real thread interleavings are sampled (three layouts), not enumerated']
-ASSUMPTIONS = ['problem fragment without required breaks, recharges, clustering, reload resources, objectives override (optional breaks are in: window '
+ASSUMPTIONS = ['problem fragment without recharges, reload resources, objectives override (optional breaks are in: window '
                'of the break via the rebuilt activity, placement FBreakPlace; relations are in for a sixth of the cases: derived from a '
                'solution of the same problem on metric matrices without tour limits, pinning rules of Spec/Relations.v): those '
                'constraints are not exercised by this check',
+               'required breaks (Spec/ValidX.v): the break intervals a tour reports are taken as part of the reported visiting order (that '
+               'they are the defined ones, that none is missing and that nothing else happens in them are rules of their own); every '
+               'time rule is evaluated on the tour without its break activities with a clock that skips those intervals; not on shifts '
+               'that also have optional breaks or reloads, not with general routing data',
+               'vicinity clustering (Spec/ValidX.v): clustering.profile = the vehicles\' routing profile without scale, serving policy '
+               'original; for a tour with a clustered stop the rules are evaluated on the activities attributed by kind and location '
+               '(capacity, skills, order, limits on the stop-to-stop distance / duration, tour size with the clustered activities of a '
+               'stop counted as one, every service start inside a time window of a place used, members within the threshold); the '
+               'arrival-by-arrival time-window simulation is not run for such a tour',
                'general routing data (several profiles, integer scale, time-dependent matrices with integer slopes) are judged by '
                'Spec/ValidTD.v over the C16 provider model; the step theorems are about time-independent routing',
                'groups: checked rule = all ASSIGNED jobs of a group are in one tour (the documentation\'s "or left unassigned" is read per job)']
